@@ -172,6 +172,18 @@ def _run_nth(case):
 
 
 def impl(case):
+    try:
+        with hard_guard():
+            return _impl(case)
+    except HarnessTimeout as e:
+        _CACHE[case_key(case)] = []
+        base = {'_draws': [], '_bad_draws': [], '_detail': [], '_msg': str(e)}
+        if case['op'] == 'stv_trace':
+            return dict(base, init={'err': 'CaseExceedsTimeBudget'}, counts=[], result={'err': 'CaseExceedsTimeBudget'}, quota=None)
+        return dict(base, err='CaseExceedsTimeBudget')
+
+
+def _impl(case):
     key = case_key(case)
     if case['op'] == 'stv_trace':
         obs = _run_trace(case)
@@ -399,7 +411,7 @@ def _check_count(case, a_in, prev, rec, out, where):
 
 
 def _allowed_errors(case):
-    allowed = {'NotImplementedError', 'VotingSystemError'}
+    allowed = {'NotImplementedError', 'VotingSystemError', 'DoesNotTerminate', 'CaseExceedsTimeBudget'}   # own clauses
     if case.get('step', -1) is None:
         allowed.add('ValueError')       # "need to specify eliminate step without standalone retainer" (L345-347)
     elif case.get('step', -1) >= 0:
@@ -452,6 +464,10 @@ def _oracle_trace(case, obs):
         out.append((_bad_clause(obs['_bad_draws'][0]), obs['_bad_draws'][0]))
     _mutation_clauses(obs, out)
     res = obs['result']
+    if isinstance(res, dict) and budget_clause(res.get('err')):
+        out.append((budget_clause(res['err']), str(obs.get('_msg'))))
+        if res['err'] == 'CaseExceedsTimeBudget':
+            return out
     overshoot = _overshoot(case, obs['_detail'])
     allowed = _allowed_errors(case)
     if isinstance(res, dict) and 'err' in res and res['err'] not in allowed and not overshoot:
@@ -529,6 +545,9 @@ def _oracle_next(case, obs):
     if obs.get('_bad_draws'):
         out.append((_bad_clause(obs['_bad_draws'][0]), obs['_bad_draws'][0]))
     _mutation_clauses(obs, out)
+    if 'err' in obs and budget_clause(obs['err']):
+        out.append((budget_clause(obs['err']), str(obs.get('_msg'))))
+        return out
     if 'err' in obs:
         if obs['err'] not in (_allowed_errors(case) - {'VotingSystemError'}):
             out.append(('unexpected_error', f"{obs['err']}: {obs.get('_msg')}"))
@@ -549,6 +568,8 @@ def oracle(case, obs):
     out = []
     if obs.get('_bad_draws'):
         out.append((_bad_clause(obs['_bad_draws'][0]), obs['_bad_draws'][0]))
+    if 'err' in obs and budget_clause(obs['err']):
+        out.append((budget_clause(obs['err']), str(obs.get('_msg'))))
     if ('err' in obs and obs['err'] not in _allowed_errors(case)
             and not _overshoot(case, obs.get('_detail', []))):
         out.append(('unexpected_error', obs['err']))
